@@ -171,10 +171,42 @@ func byteIs(v value, c byte) bool {
 	if b, ok := v.(byte); ok {
 		return b == c
 	}
-	return Branch(term.Eq(byteTerm(v), term.Const(8, uint64(c))))
+	return decideClass(v, []rune{rune(c), rune(c)}, term.Eq(byteTerm(v), term.Const(8, uint64(c))))
 }
 
 // ---- uninterpreted hashes ----
+
+// Collision-freeness (listed assumption): for every pair of applications of the same hash that occur
+// on a path, equal digests imply equal inputs; digests of inputs of different lengths differ.
+type ufApp struct {
+	app  *term.Term
+	args []*term.Term
+	fn   string
+}
+
+var ufApps = map[string][]ufApp{}
+
+func registerUF(kind, fn string, app *term.Term, args []*term.Term) {
+	if !Cfg.NoInjectivity {
+		for _, o := range ufApps[kind] {
+			if o.app == app {
+				return
+			}
+		}
+		for _, o := range ufApps[kind] {
+			if o.fn == fn {
+				eqArgs := term.True
+				for i := range args {
+					eqArgs = term.And(eqArgs, term.Eq(args[i], o.args[i]))
+				}
+				addPC(term.Implies(term.Eq(app, o.app), eqArgs))
+			} else {
+				addPC(term.Not(term.Eq(app, o.app)))
+			}
+		}
+	}
+	ufApps[kind] = append(ufApps[kind], ufApp{app, args, fn})
+}
 
 func ufHash(name string, bits int, msg []value) []value {
 	if allConcrete(msg) {
@@ -197,7 +229,9 @@ func ufHash(name string, bits int, msg []value) []value {
 		for _, b := range msg {
 			ts = append(ts, byteTerm(b))
 		}
-		app = term.UF(fn, term.BV(bits), term.ConcatN(ts))
+		arg := term.ConcatN(ts)
+		app = term.UF(fn, term.BV(bits), arg)
+		registerUF(name, fn, app, []*term.Term{arg})
 	}
 	out := make([]value, bits/8)
 	for i := range out {
@@ -226,6 +260,7 @@ func ufHmacSHA1(key, msg []value) []value {
 		args = append(args, term.ConcatN(ts))
 	}
 	app := term.UF(fn, term.BV(160), args...)
+	registerUF("hmacsha1", fn, app, args)
 	out := make([]value, 20)
 	for i := range out {
 		hi := 159 - 8*i
@@ -253,8 +288,10 @@ func hexChar(nib *term.Term, upper bool) value {
 	c := term.Ite(term.Cmp("bvult", n, term.Const(8, 10)), term.Bin("bvadd", n, term.Const(8, 0x30)), term.Bin("bvadd", n, term.Const(8, off)))
 	if upper {
 		hexProvUpper[c] = nib
+		bsetMemo[c] = charsetSet("set:0123456789ABCDEF")
 	} else {
 		hexProv[c] = nib
+		bsetMemo[c] = charsetSet("hex")
 	}
 	return symv{c, false}
 }
